@@ -304,7 +304,7 @@ func c08Execute(rnd *rand.Rand) *c08Run {
 				_, e.Err = failing(func(w io.Writer) error { return g.RenderWithFile(w, f) })
 			}
 		case k == 11 && rnd.Intn(3) == 0: // a cgo preamble added late (possibly after "C" was already rendered in the common block)
-			pre := []string{"#include <a.h>", "#include <b.h>\nvoid f() {}\n"}[rnd.Intn(2)]
+			pre := []string{"#include <a.h>", "#include <b.h>\nvoid f() {}\n", "", " "}[rnd.Intn(4)]
 			e.Op, e.Arg = "CgoPreamble", strconv.Quote(pre)
 			f.CgoPreamble(pre)
 		case k == 13: // File.GoString: one more way in which names appear in an output produced with the File
